@@ -224,8 +224,41 @@ def r06_5(chk):
     chk.floor("R06.5", 7, "2+2 line-parser obligations, 3 bytes-parser obligations")
 
 
+def r06_6(chk):
+    chk.rule("R06.6", "iter_splitlines (chunked line streaming) is chunk-size independent by construction: the incomplete tail of every chunk is withheld and prepended to the next chunk, a complete last line is terminated before being carried, and what is left after the last chunk is yielded")
+    from ..cfg import build
+
+    m = chk.repo.module("util/io.py")
+    fn = m.func("iter_splitlines")
+    g = build(fn)
+    loops = [n for n in g.nodes if n.kind == "loop" and isinstance(n.ast, ast.While)]
+    if not loops:
+        raise AnalysisError("iter_splitlines: read loop not found")
+    lp = loops[0]
+    body = lp.ast.body
+
+    def in_loop(pred):
+        return [st for st in ast.walk(ast.Module(body=body, type_ignores=[])) if pred(st)]
+
+    carry = in_loop(lambda st: isinstance(st, ast.Assign) and norm(st.targets[0]) == "data" and norm(st.value) in ("last + data",))
+    split = in_loop(lambda st: isinstance(st, ast.Assign) and norm(st.targets[0]) == "lines" and norm(st.value) == "data.splitlines()")
+    hold = in_loop(lambda st: isinstance(st, ast.Assign) and norm(st.targets[0]) == "last" and norm(st.value) in ("lines.pop(-1)", "lines.pop()"))
+    chk.decide(bool(carry and split and hold) and carry[0].lineno < split[0].lineno < hold[0].lineno, "R06.6", key(m, "iter_splitlines", "tail carried over"), m.loc(lp.ast), "data = last + data; lines = data.splitlines(); last = lines.pop(-1)", "the unfinished last piece of a chunk is not withheld and prepended to the next chunk: a line that straddles a chunk boundary is split in two")
+    nl_test = in_loop(lambda st: isinstance(st, ast.Assign) and "data.endswith('\\n')" in norm(st.value))
+    nl_fix = in_loop(lambda st: isinstance(st, ast.AugAssign) and norm(st.target) == "last" and isinstance(st.op, ast.Add) and norm(st.value) == "'\\n'")
+    guarded = in_loop(lambda st: isinstance(st, ast.If) and nl_test and norm(st.test) == norm(nl_test[0].targets[0]) and any(x in nl_fix for x in ast.walk(st)))
+    chk.decide(bool(nl_test and nl_fix and guarded), "R06.6", key(m, "iter_splitlines", "complete last line terminated"), m.loc(lp.ast), "when the chunk ends with a newline the withheld line gets its newline back", "a chunk ending exactly at a line end makes that line merge with the first line of the next chunk")
+    ylines = g.nodes_containing(lambda x: isinstance(x, ast.YieldFrom) and norm(x.value) == "lines")
+    holds = [n for n in g.nodes if n.ast in hold]
+    chk.decide(bool(ylines) and bool(holds) and all(g.dominated_by(y, holds)[0] for y in ylines), "R06.6", key(m, "iter_splitlines", "yield after withholding"), m.loc(lp.ast), "lines are yielded only after the tail was withheld", "lines are yielded before the tail is withheld")
+    after = [st for st in walk_no_nested(fn) if isinstance(st, ast.If) and norm(st.test) == "last" and st.lineno > lp.ast.lineno and any(isinstance(x, ast.YieldFrom) and "last" in norm(x.value) for x in ast.walk(st))]
+    chk.decide(bool(after), "R06.6", key(m, "iter_splitlines", "remainder yielded"), m.loc(fn), "what is left after the last chunk is yielded", "the text left after the last chunk is dropped: the last line of a file without a trailing newline is lost")
+    chk.floor("R06.6", 4, "four obligations")
+
+
 def run(chk):
     r06_1(chk)
+    r06_6(chk)
     r06_2(chk)
     r06_3(chk)
     r06_4(chk)
